@@ -3,6 +3,7 @@ CONSTANTS
   MaxLen = 2
   ExtraLen = 3
   NCfg = 4
+  LocalInLoopCheck = TRUE
   Gen = TRUE
 INVARIANTS StoredOnlyIf StoredConforms SentNoLoop PipelineExact
 CHECK_DEADLOCK FALSE
